@@ -236,59 +236,71 @@ func twoTemplates(c *CheckRun, pool int) []*Scenario {
 		cls := classes[name]
 		for _, kb := range kindsB {
 			bs := fanBytes(cls.grow, c.Seed, 0)
-			var ops [][3]int
-			for _, b := range bs {
-				ops = append(ops, [3]int{0, opInsertC, cKey1(b)})
-			}
-			for _, b := range bs[cls.shrink:] {
-				ops = append(ops, [3]int{0, opDeleteC, cKey1(b)})
-			}
-			conc := func(b int) int {
-				switch kb {
-				case kindAlphaS:
-					return cKey1(b)
-				case kindF32:
-					return 0x3f800000 + b<<12
+			for _, keep := range []bool{false, true} {
+				var ops [][3]int
+				for _, b := range bs {
+					ops = append(ops, [3]int{0, opInsertC, cKey1(b)})
 				}
-				return b
-			}
-			// tree B uses a different byte set, so that anything tree A left behind in a recycled node stays visible
-			inA := map[int]bool{}
-			for _, b := range bs {
-				inA[b] = true
-			}
-			var bsB []int
-			for _, b := range fanBytes(256, c.Seed+7, 3) {
-				if !inA[b] && len(bsB) < cls.grow {
-					bsB = append(bsB, b) // disjoint from A's bytes (A holds 00,01,7f,80,fe,ff): every stale entry stays visible
+				if !keep {
+					for _, b := range bs[cls.shrink:] {
+						ops = append(ops, [3]int{0, opDeleteC, cKey1(b)})
+					}
 				}
+				conc := func(b int) int {
+					switch kb {
+					case kindAlphaS:
+						return cKey1(b)
+					case kindF32:
+						return 0x3f800000 + b<<12
+					}
+					return b
+				}
+				// tree B uses a different byte set, so that anything tree A left behind in a recycled node stays visible
+				inA := map[int]bool{}
+				for _, b := range bs {
+					inA[b] = true
+				}
+				var bsB []int
+				for _, b := range fanBytes(256, c.Seed+7, 3) {
+					if !inA[b] && len(bsB) < cls.grow {
+						bsB = append(bsB, b) // disjoint from A's bytes (A holds 00,01,7f,80,fe,ff): every stale entry stays visible
+					}
+				}
+				for _, b := range bsB {
+					ops = append(ops, [3]int{1, opInsertC, conc(b)})
+				}
+				big := cls.grow > 5
+				if !big {
+					ops = append(ops, [3]int{0, opInsert, aSpec(0, 1)}, [3]int{1, opDelete, aSpec(0, 1)})
+				}
+				// tree A is emptied by deletion and then used again
+				rest := bs[:cls.shrink]
+				if keep {
+					rest = bs
+				}
+				for _, b := range rest {
+					ops = append(ops, [3]int{0, opDeleteC, cKey1(b)})
+				}
+				ops = append(ops, [3]int{0, opInsert, aSpec(0, 1)}, [3]int{0, opInsertC, cKey1(0x41)})
+				mask := ckShape
+				if big {
+					mask = 0 // the walker over 48/256-way nodes after each of ~150 operations exceeds the step budget; final() still checks the shape
+				}
+				p := []int{pool, kindAlphaB, kb, mask, len(ops)}
+				for _, o := range ops {
+					p = append(p, o[0], o[1], o[2])
+				}
+				pa, pb := aSpec(0, 1), aSpec(0, 1)
+				if big {
+					pb = conc(bsB[0]) | 1<<30
+				}
+				p = append(p, pa, pb)
+				lbl := fmt.Sprintf("F-two %s released by A, acquired by B (%s), pool=%d", name, kindNames[kb], pool)
+				if keep {
+					lbl = fmt.Sprintf("F-two %s kept by A while B grows through the same class (%s), pool=%d", name, kindNames[kb], pool)
+				}
+				out = append(out, &Scenario{Harness: "hTwo", Params: p, MaxSteps: 300_000_000, Label: lbl})
 			}
-			for _, b := range bsB {
-				ops = append(ops, [3]int{1, opInsertC, conc(b)})
-			}
-			big := cls.grow > 5
-			if !big {
-				ops = append(ops, [3]int{0, opInsert, aSpec(0, 1)}, [3]int{1, opDelete, aSpec(0, 1)})
-			}
-			// tree A is emptied by deletion and then used again
-			for _, b := range bs[:cls.shrink] {
-				ops = append(ops, [3]int{0, opDeleteC, cKey1(b)})
-			}
-			ops = append(ops, [3]int{0, opInsert, aSpec(0, 1)}, [3]int{0, opInsertC, cKey1(0x41)})
-			mask := ckShape
-			if big {
-				mask = 0 // the walker over 48/256-way nodes after each of ~150 operations exceeds the step budget; final() still checks the shape
-			}
-			p := []int{pool, kindAlphaB, kb, mask, len(ops)}
-			for _, o := range ops {
-				p = append(p, o[0], o[1], o[2])
-			}
-			pa, pb := aSpec(0, 1), aSpec(0, 1)
-			if big {
-				pb = conc(bsB[0]) | 1<<30
-			}
-			p = append(p, pa, pb)
-			out = append(out, &Scenario{Harness: "hTwo", Params: p, MaxSteps: 300_000_000, Label: fmt.Sprintf("F-two %s released by A, acquired by B (%s), pool=%d", name, kindNames[kb], pool)})
 		}
 	}
 	return out
@@ -316,6 +328,13 @@ func aliasScenarios(c *CheckRun) []*Scenario {
 			}
 			// the scanner idiom: one buffer reused
 			out = append(out, simple("hAlias", "byte-string []byte: one buffer reused", 0, 1, 3, 0, n1, 1, 0, n2, 0, 1, n1, 0))
+		}
+	}
+	// sequences over a tree with a compressed path (two stored keys sharing a stem): the argument buffer is reused
+	// between obtaining the sequence and ranging over it
+	for _, st := range []int{3, 12} {
+		for op := 3; op <= 4; op++ {
+			out = append(out, simple("hAlias", fmt.Sprintf("byte-string []byte: lazy sequence over a %d-byte shared stem", st), 0, 0, 3, 0, aSpec(st, 1), 0, 0, aSpec(st, 1), 0, op, aSpec(st, 1), 1))
 		}
 	}
 	// long keys: a concrete stem of 15/16/31/32/33/62 bytes plus one symbolic byte (stack-buffer and size-class boundaries)
